@@ -34,9 +34,9 @@ MECHANISMS = [
 ]
 REQUIRED_MONITORS = ['one_las_per_log_pass', 'rows_are_selected_frames', 'columns_are_x_plus_requested', 'values_within_print_precision',
                      'start_stop_step', 'readable_by_LASRead', 'only_expected_files_written', 'contract:Slice.indices']
-MIN_NONTRIVIAL = {'quick': 300, 'thorough': 4000}
+MIN_NONTRIVIAL = {'quick': 800, 'thorough': 4000}
 NSHARDS = 16
-SOURCES = {'quick': 40, 'thorough': 500}          # per shard
+SOURCES = {'quick': 100, 'thorough': 500}          # per shard
 SELECTORS = {'quick': 4, 'thorough': 5}
 TIMEOUT_S = {'quick': 400, 'thorough': 3400}
 FORMATS = ['rp66v1'] * 8 + ['bit'] * 4 + ['lis'] * 4
